@@ -337,9 +337,6 @@ func (r *Realm) parseLines(name string, lines []string) (err error) {
 	var ignore bool
 	var c int // counts the depth of blocks within brackets { }
 	for _, line := range lines {
-		if ignore && c > 0 && !strings.Contains(line, "{") && !strings.Contains(line, "}") {
-			continue
-		}
 		//Remove comments after the values
 		if idx := strings.IndexAny(line, "#;"); idx != -1 {
 			line = line[:idx]
@@ -348,18 +345,21 @@ func (r *Realm) parseLines(name string, lines []string) (err error) {
 		if line == "" {
 			continue
 		}
-		if !strings.Contains(line, "=") && !strings.Contains(line, "}") {
+		if ignore && c > 0 && !opensBlock(line) && !closesBlock(line) {
+			continue
+		}
+		if !strings.Contains(line, "=") && !closesBlock(line) {
 			return InvalidErrorf("realms section line (%s)", line)
 		}
 		if strings.Contains(line, "v4_") {
 			ignore = true
 			err = UnsupportedDirective{"v4 configurations are not supported"}
 		}
-		if strings.Contains(line, "{") {
+		if opensBlock(line) {
 			c++
 			continue
 		}
-		if strings.Contains(line, "}") {
+		if closesBlock(line) {
 			c--
 			if c < 0 {
 				return InvalidErrorf("unpaired curly brackets")
@@ -418,6 +418,18 @@ func (r *Realm) parseLines(name string, lines []string) (err error) {
 	return
 }
 
+// opensBlock reports whether a line, with comments and surrounding space removed, opens a block: "tag = {".
+// Curly brackets anywhere else in a value (an auth_to_local rule, for instance) are part of the value.
+func opensBlock(line string) bool {
+	i := strings.Index(line, "=")
+	return i != -1 && strings.TrimSpace(line[i+1:]) == "{"
+}
+
+// closesBlock reports whether a line, with comments and surrounding space removed, closes a block: it begins with "}".
+func closesBlock(line string) bool {
+	return strings.HasPrefix(line, "}")
+}
+
 // Parse the lines of the [realms] section of the configuration into an slice of Realm structs.
 func parseRealms(lines []string) (realms []Realm, err error) {
 	var name string
@@ -435,18 +447,19 @@ func parseRealms(lines []string) (realms []Realm, err error) {
 		//if strings.Contains(l, "v4_") {
 		//	return nil, errors.New("v4 configurations are not supported in Realms section")
 		//}
-		if strings.Contains(l, "{") {
+		if opensBlock(l) {
 			c++
-			if !strings.Contains(l, "=") {
-				return nil, fmt.Errorf("realm configuration line invalid: %s", l)
-			}
 			if c == 1 {
 				start = i
 				p := strings.Split(l, "=")
 				name = strings.TrimSpace(p[0])
 			}
+			continue
 		}
-		if strings.Contains(l, "}") {
+		if c == 0 && strings.Contains(l, "{") {
+			return nil, fmt.Errorf("realm configuration line invalid: %s", l)
+		}
+		if closesBlock(l) {
 			if c < 1 {
 				// but not started a block!!!
 				return nil, errors.New("invalid Realms section in configuration")
